@@ -211,6 +211,10 @@ func collectImportsFromType(t types.Type, pkg string, imports map[string]*Import
 		for method := range typ.Methods() {
 			collectImportsFromType(method.Type(), pkg, imports, referencedImports, varPool)
 		}
+		// An interface literal that embeds a named interface refers to that interface's package.
+		for i := 0; i < typ.NumEmbeddeds(); i++ {
+			collectImportsFromType(typ.EmbeddedType(i), pkg, imports, referencedImports, varPool)
+		}
 	}
 }
 
